@@ -520,6 +520,42 @@ func (r *runner) restart() (up bool) {
 	return up
 }
 
+func hasEngine(r runResult) bool {
+	for _, p := range r.problems {
+		if p.inv == "engine" {
+			return true
+		}
+	}
+	return false
+}
+
+func hasProblem(r runResult) bool {
+	for _, p := range r.problems {
+		if p.inv != "engine" {
+			return true
+		}
+	}
+	return false
+}
+
+// reproduced keeps the problems of the first run whose invariant is violated in the second run as well.
+func reproduced(first, second []problem) []problem {
+	var out []problem
+	for _, p := range first {
+		if p.inv == "engine" {
+			out = append(out, p)
+			continue
+		}
+		for _, q := range second {
+			if q.inv == p.inv {
+				out = append(out, p)
+				break
+			}
+		}
+	}
+	return out
+}
+
 func readPoints(file string) []crashSpec {
 	b, err := os.ReadFile(file)
 	if err != nil {
@@ -844,6 +880,7 @@ func main() {
 	var jobs []job
 	var mu sync.Mutex
 	total, reached, capped := 0, 0, false
+	reruns := 0
 	pointsPer := map[string]int{}
 	// reference runs
 	var wg sync.WaitGroup
@@ -855,6 +892,9 @@ func main() {
 			defer wg.Done()
 			defer func() { <-sem }()
 			res := runOne(sc, crashSpec{})
+			for attempt := 0; attempt < 2 && hasEngine(res); attempt++ {
+				res = runOne(sc, crashSpec{})
+			}
 			tag := sc.name + "/" + sc.role
 			for _, p := range res.problems {
 				if p.inv == "engine" {
@@ -893,6 +933,18 @@ func main() {
 			defer wg.Done()
 			defer func() { <-sem }()
 			res := runOne(j.sc, j.spec)
+			for attempt := 0; attempt < 2 && hasEngine(res); attempt++ {
+				res = runOne(j.sc, j.spec) // the scenario itself did not run through (ports, load): once more
+			}
+			if hasProblem(res) {
+				// real processes, real time: a finding must reproduce on a second run of the same crash point before it is
+				// reported (a loaded machine can make a node miss a generous deadline once)
+				again := runOne(j.sc, j.spec)
+				res.problems = reproduced(res.problems, again.problems)
+				mu.Lock()
+				reruns++
+				mu.Unlock()
+			}
 			tag := j.sc.name + "/" + j.sc.role
 			mu.Lock()
 			total++
@@ -920,6 +972,7 @@ func main() {
 	c.Count("evaluations", int64(reached+len(scenarios)))
 	c.Count("distinct", int64(reached))
 	c.Count("keystore_crash_runs", int64(ksRuns))
+	c.Count("crash_runs_repeated_for_confirmation", int64(reruns))
 	c.Count("crash_points", int64(len(jobs)))
 	c.Count("crash_points_reached", int64(reached))
 	c.Exhaustive(!capped && reached == len(jobs))
